@@ -171,6 +171,20 @@ theorem runLines_included_lines_eq_spec (q : Quirks) (undefs : List Tok) (lines 
   injection a with a
   exact a.symm
 
+/-- **a pass has no memory**: the result of the k-th pass over a source is a function of (source, dui of that pass) only — whatever
+passes were made before.  Trivial for the pure model (that is the point: it is the specification of "no state survives a pass");
+its force is the tie `preprocess-repeated-passes`, which runs the real simplecpp::preprocess repeatedly over ONE raw token list
+(whose `Token::nextcond` skip chain is written by earlier passes) and compares every pass with `runPasses`. -/
+theorem pass_independent_of_history (q : Quirks) (src : List Char) (duis : List (List (List Char) × List Tok)) (k : Nat) :
+    (runPasses q src duis)[k]? = duis[k]?.map fun d => runFile q d.1 d.2 src := by
+  simp [runPasses]
+
+/-- in particular: the same dui gives the same result at any position of any sequence of passes -/
+theorem pass_same_dui_same_result (q : Quirks) (src : List Char) (pre pre' : List (List (List Char) × List Tok))
+    (d : List (List Char) × List Tok) :
+    (runPasses q src (pre ++ [d]))[pre.length]? = (runPasses q src (pre' ++ [d]))[pre'.length]? := by
+  simp [runPasses]
+
 /-! ### function-like macros (audit M4) -/
 
 /-- **function-like macro replacement = simultaneous parameter substitution**: for a table whose replacement lists contain no
